@@ -73,7 +73,7 @@ REG[ZZ + "I64"] = _nondet_int(64, True)
 
 @intr(ZZ + "Bool")
 def zz_bool(eng, st, fr, args, ins):
-    b = eng.fresh(st, args[0], 8)
+    b = eng.fresh(st, args[0], 8, kind="forcebv")
     if not is_sym(b):
         return b & 1 == 1
     return simp(z3.Extract(0, 0, b) == z3.BitVecVal(1, 1))
@@ -82,7 +82,7 @@ def zz_bool(eng, st, fr, args, ins):
 @intr(ZZ + "Int")
 def zz_int(eng, st, fr, args, ins):
     name, lo, hi = args
-    v = eng.fresh(st, name, 64)
+    v = eng.fresh(st, name, 64, kind="forcebv")
     if not is_sym(v):
         v = norm(v, 64, True)
         if v < lo or v > hi:
@@ -105,7 +105,7 @@ def zz_int(eng, st, fr, args, ins):
 
 def _nondet_bytes(n):
     def h(eng, st, fr, args, ins):
-        v = eng.fresh(st, args[0], 8 * n)
+        v = eng.fresh(st, args[0], 8 * n, kind="forcebv")
         if not is_sym(v):
             return tuple(v.to_bytes(n, "big"))
         return eng.unpack(v, n)
@@ -126,7 +126,7 @@ def zz_bytes(eng, st, fr, args, ins):
         k = st.counters.get(name, 0)
         st.counters[name] = k + 1
         return eng.new_slice(st, "uint8", ())
-    v = eng.fresh(st, name, 8 * n)
+    v = eng.fresh(st, name, 8 * n, kind="forcebv")
     bs = tuple(v.to_bytes(n, "big")) if not is_sym(v) else eng.unpack(v, n)
     return eng.new_slice(st, "uint8", bs)
 
